@@ -558,6 +558,61 @@ Proof.
     destruct (S3 p Hin) as (r & H). exists s, (scan, m), r. tauto.
 Qed.
 
+(** ---- sharded List ---- *)
+Lemma set_add_fold_In : forall l acc x, In x (fold_left (fun a n => set_add n a) l acc) -> In x acc \/ In x l.
+Proof.
+  induction l as [|n l IH]; intros acc x H; cbn in H; [now left|].
+  destruct (IH _ _ H) as [H'|H']; [|right; now right].
+  destruct (set_add_In _ _ _ H'); [right; left; now symmetry | now left].
+Qed.
+
+Fixpoint own_docs (strict : bool) (c : tctx) (ls : list (shard * (option bool * bool * (repo -> doc -> bool)))) : N :=
+  match ls with [] => 0%N | sq :: r => (docs_total (own strict c (fst sq)) + own_docs strict c r)%N end.
+
+Lemma sharded_rlist_no_leak : forall strict c field ls,
+  let res := sharded_rlist strict c field ls in
+  (forall n, In n (sl_names res) ->
+     exists s q r ds, In (s, q) ls /\ In (r, ds) s /\ allowed strict c r /\ r_tomb r = false /\ n = r_name r) /\
+  (forall i, In i (sl_ids res) ->
+     exists s q r ds, In (s, q) ls /\ In (r, ds) s /\ allowed strict c r /\ r_tomb r = false /\ i = r_id r) /\
+  (sl_docs res <= own_docs strict c ls)%N.
+Proof.
+  intros strict c field ls. unfold sharded_rlist.
+  assert (G : forall acc,
+    let res := fold_left (fun acc sq =>
+               let '(s, (lsimp, scan, m)) := sq in
+               let r := rlist strict c s lsimp scan m field in
+               {| sl_names := fold_left (fun a n => set_add n a) (lr_repos r) (sl_names acc);
+                  sl_ids := fold_left (fun a n => set_add n a) (lr_map r) (sl_ids acc);
+                  sl_docs := (sl_docs acc + lr_docs r)%N |}) ls acc in
+    (forall n, In n (sl_names res) -> In n (sl_names acc) \/
+       exists s q r ds, In (s, q) ls /\ In (r, ds) s /\ allowed strict c r /\ r_tomb r = false /\ n = r_name r) /\
+    (forall i, In i (sl_ids res) -> In i (sl_ids acc) \/
+       exists s q r ds, In (s, q) ls /\ In (r, ds) s /\ allowed strict c r /\ r_tomb r = false /\ i = r_id r) /\
+    (sl_docs res <= sl_docs acc + own_docs strict c ls)%N).
+  { induction ls as [|[s [[lsimp scan] m]] ls IH]; intros acc; cbn [fold_left own_docs].
+    - split; [intros; now left|]. split; [intros; now left | cbn; lia].
+    - destruct (rlist_no_leak strict c s lsimp scan m field) as (R1 & R2 & R3). cbn zeta in R1, R2, R3.
+      set (acc' := {| sl_names := fold_left (fun a n => set_add n a) (lr_repos (rlist strict c s lsimp scan m field)) (sl_names acc);
+                      sl_ids := fold_left (fun a n => set_add n a) (lr_map (rlist strict c s lsimp scan m field)) (sl_ids acc);
+                      sl_docs := (sl_docs acc + lr_docs (rlist strict c s lsimp scan m field))%N |}).
+      destruct (IH acc') as (I1 & I2 & I3). cbn zeta in I1, I2, I3. split; [|split].
+      + intros n Hn. destruct (I1 n Hn) as [H|(s0 & q0 & r & ds & Hin & H)].
+        * cbn in H. destruct (set_add_fold_In _ _ _ H) as [H'|H']; [now left|].
+          right. destruct (R1 n H') as (r & ds & Hr). exists s, (lsimp, scan, m), r, ds. split; [now left | exact Hr].
+        * right. exists s0, q0, r, ds. split; [now right | exact H].
+      + intros i Hi. destruct (I2 i Hi) as [H|(s0 & q0 & r & ds & Hin & H)].
+        * cbn in H. destruct (set_add_fold_In _ _ _ H) as [H'|H']; [now left|].
+          right. destruct (R2 i H') as (r & ds & Hr). exists s, (lsimp, scan, m), r, ds. split; [now left | exact Hr].
+        * right. exists s0, q0, r, ds. split; [now right | exact H].
+      + cbn [fst]. cbn in I3. lia. }
+  destruct (G {| sl_names := []; sl_ids := []; sl_docs := 0 |}) as (G1 & G2 & G3). cbn zeta in G1, G2, G3.
+  split; [|split].
+  - intros n Hn. destruct (G1 n Hn) as [[]|H]. exact H.
+  - intros i Hi. destruct (G2 i Hi) as [[]|H]. exact H.
+  - cbn in G3. lia.
+Qed.
+
 (** ---- the code before the repair leaks ---- *)
 Definition leak_repo1 : repo := {| r_name := 1; r_id := 101; r_tenant := 1; r_tomb := false; r_url := 11; r_frag := 21; r_subs := [] |}.
 Definition leak_repo2 : repo := {| r_name := 2; r_id := 102; r_tenant := 2; r_tomb := false; r_url := 12; r_frag := 22;
